@@ -271,7 +271,9 @@ func (g gctx) stmt() string {
 		return g.recStmt()
 	case 30, 31:
 		if g.nhost > 0 {
-			return fmt.Sprintf("a = host(%d, %s);", g.pick("hostj", g.nhost), g.expr())
+			// hostw is the same re-entrant call made by a Go function with an error result that returns an interrupt /
+			// stack overflow of the nested call wrapped in another error (fmt.Errorf("...: %w", err))
+			return fmt.Sprintf("a = %s(%d, %s);", []string{"host", "host", "hostw"}[g.pick("hostfn", 3)], g.pick("hostj", g.nhost), g.expr())
 		}
 		return g.simple()
 	case 32:
